@@ -144,6 +144,20 @@ if __name__ == '__main__':
     if cmd == 'adopt':
         adopt(sys.argv[2:])
         sys.exit(0)
+    if cmd == 'runall':
+        # refresh result.json of every committed seeded change: its own property's check plus the related checks listed here
+        ALSO = {'C07/1': ['C05'], 'C13/3': ['C12'], 'C13/2': ['C12']}
+        root = os.path.join(VERIF, 'seeded')
+        for pid in sorted(os.listdir(root)):
+            for k in sorted(os.listdir(os.path.join(root, pid))):
+                d = os.path.join(root, pid, k)
+                if not os.path.exists(os.path.join(d, 'meta.json')):
+                    continue
+                if os.path.exists(os.path.join(d, 'result.json')):
+                    os.remove(os.path.join(d, 'result.json'))
+                r = run_one(d, [pid] + ALSO.get('%s/%s' % (pid, k), []))
+                print(pid, k, {p: c['exit'] for p, c in r['checks'].items()}, r.get('error', ''))
+        sys.exit(0)
     if cmd == 'confirm':
         from concurrent.futures import ThreadPoolExecutor
         with ThreadPoolExecutor(max_workers=4) as ex:
